@@ -165,8 +165,12 @@ def run(pid, tier, seed):
         jobs.append((start, gen_job(r, lp, r.rint(2, 9)), "random"))
     # bounded-exhaustive short histories on three seed LPs: every pair (edit kind, solver) after an initial solve
     small = [LP("min", [[F(-1), F(0), gen.INF], [F(-1), F(0), gen.INF]], [["L", F(4), F(0), [(0, F(1)), (1, F(2))]], ["L", F(6), F(0), [(0, F(3)), (1, F(1))]]]),
-             LP("max", [[F(1), F(0), F(3)], [F(2), F(0), gen.INF]], [["R", F(0), F(1), [(0, F(1))]], ["G", F(-2), F(0), [(0, F(1)), (1, F(-1))]], ["L", F(8), F(0), [(0, F(1)), (1, F(1))]]])]
-    edits = ["chgcoef 0 0 0 5", "chgobj 0 1 3", "chgrhs 0 0 1", "chgbound 0 0 U 1", "chgbound 0 1 L 1/2", "chgsense 0 0 G", "chgsense 0 1 R",
+             LP("max", [[F(1), F(0), F(3)], [F(2), F(0), gen.INF]], [["R", F(0), F(1), [(0, F(1))]], ["G", F(-2), F(0), [(0, F(1)), (1, F(-1))]], ["L", F(8), F(0), [(0, F(1)), (1, F(1))]]]),
+             # several non-binding rows with different slacks: deleting one of them keeps the stored solution, whose surviving
+             # row entries (pi, slack) must move to their new positions
+             LP("min", [[F(-2), F(0), gen.INF], [F(-1), F(0), gen.INF]], [["L", F(4), F(0), [(0, F(1)), (1, F(1))]], ["L", F(10), F(0), [(0, F(1))]],
+                                                                            ["L", F(3), F(0), [(1, F(1))]], ["L", F(6), F(0), [(0, F(1))]]])]
+    edits = ["delrow 0 2", "delrow 0 3", "chgcoef 0 0 0 5", "chgobj 0 1 3", "chgrhs 0 0 1", "chgbound 0 0 U 1", "chgbound 0 1 L 1/2", "chgsense 0 0 G", "chgsense 0 1 R",
              "addrow 0 - L 3 2 0 1 1 1", "addrrow 0 - R 1 1 1 0 1", "addcol 0 - -2 0 2 1 0 1", "delrow 0 0", "delrow 0 1", "delcol 0 0", "delcol 0 1",
              "chgobjsense 0 max", "chgobjsense 0 min", "chgrange 0 0 1/2", "newcol 0 - 1 0 inf", "newrow 0 - G 1",
              # columns entering a live basis with every bound shape (which bound the new non-basic column starts at)
@@ -177,6 +181,8 @@ def run(pid, tier, seed):
     for lp in small:
         for s1 in ("solve 0 dual", "solve 0 primal", "solve 0 exact primal none"):
             for e in edits:
+                if lp is small[2] and e.split()[0] not in ("delrow", "chgrhs", "chgobj", "chgbound", "chgcoef"):
+                    continue        # the third LP is there for its non-binding rows (other edits make it unbounded: QSopt_dual's known finding, C04)
                 for s2 in ("solve 0 dual", "solve 0 primal") + (("solve 0 exact dual none",) if not quick else ()):
                     jobs.append(("new 0 " + lp.line(), [s1, e, s2], "exhaustive"))
                     if s2 == "solve 0 primal" and e.split()[0] in ("chgobj", "chgcoef", "chgbound", "chgrhs", "delcol", "chgsense", "chgsenses", "chgrange"):
@@ -184,7 +190,7 @@ def run(pid, tier, seed):
             for lim in ("setlim 0 U 10", "setlim 0 L -30", "setlim 0 U -3", "setlim 0 L 4"):
                 for e in ("chgobjsense 0 max", "chgobjsense 0 min"):
                     jobs.append(("new 0 " + lp.line() + " ;; " + lim, [s1, e, "solve 0 dual"], "exhaustive-limits"))
-            if not quick:
+            if not quick and lp is not small[2]:
                 for e1 in edits:
                     for e2 in edits[::3]:
                         jobs.append(("new 0 " + lp.line(), [s1, e1, "solve 0 dual", e2, "solve 0 primal"], "exhaustive2"))
@@ -277,7 +283,7 @@ def run(pid, tier, seed):
                 if rv == "0" and st == "1":
                     x, pi = proto.get(blk, "x"), proto.get(blk, "pi")
                     if x and pi and x != ["err"] and pi != ["err"]:
-                        asks.append((model.ask("certok %s %s %s" % (lpl, " ".join(x), " ".join(pi))), ctx, "solve", last_edit, op))
+                        asks.append((model.ask("certok %s %s %s" % (lpl, " ".join(x), " ".join(pi))), ctx, "solve", last_edit, op, (proto.get(blk, "slack"), proto.get(blk, "rc"))))
             elif w == "sol":
                 # accessor state between an edit and the next solve: compare against the dump that follows
                 api = None
@@ -288,7 +294,7 @@ def run(pid, tier, seed):
                 if api and x and pi and x != ["err"] and pi != ["err"]:
                     ctx = {"start": start, "ops": ops[: sum(1 for l in lines[1:li + 1] if l.split(" ")[0] not in ("sol", "state", "dumpapi"))],
                            "current_lp": " ".join(api)}
-                    asks.append((model.ask("certok %s %s %s" % (" ".join(api), " ".join(x), " ".join(pi))), ctx, "stale", last_edit, None))
+                    asks.append((model.ask("certok %s %s %s" % (" ".join(api), " ".join(x), " ".join(pi))), ctx, "stale", last_edit, None, (proto.get(blk, "slack"), proto.get(blk, "rc"))))
                     extra = tuple(e.replace("setlim 0", "setlim 1") for e in split_start(start)[1])
                     f = fres.get((" ".join(api), "exact primal none", extra))
                     ov = proto.get(blk, "objval")
@@ -322,8 +328,15 @@ def run(pid, tier, seed):
                               {"start": start, "ops": ops, "tokens": toks[: n + 1], "at": op},
                               signature={"symptom": "session-differs", "op": w, "field": diff[0]}, found_input=stale)
                 break
-    for k, ctx, kind, last_edit, op in asks:
+    for k, ctx, kind, last_edit, op, (obs_slack, obs_rc) in asks:
         a = model.ans(k)
+        if proto.get(a, "ok") == ["1"]:
+            # the slacks and reduced costs served with a certified (x, pi) must be the ones that x and pi determine
+            for nm, obs_v in (("slack", obs_slack), ("rc", obs_rc)):
+                if obs_v and obs_v != ["err"] and proto.get(a, nm) is not None and obs_v != proto.get(a, nm):
+                    rep.violation("the %s array served %s is not the one of the served x / pi for the problem as it stands: served %s, determined %s" %
+                                  (nm, "after the re-solve (%s, %s)" % (last_edit, op) if kind == "solve" else "after %s" % last_edit, " ".join(obs_v)[:160], " ".join(proto.get(a, nm))[:160]),
+                                  ctx, signature={"symptom": "accessor-inconsistent", "which": nm, "edit": (last_edit or "-").split(" ")[0]})
         if proto.get(a, "ok") != ["1"]:
             if kind == "solve":
                 rep.violation("OPTIMAL after edits (%s, %s) hands back a solution that is not optimal for the problem as it stands (certOK rejects)" % (last_edit, op),
